@@ -755,7 +755,7 @@ func g21ReserveEveryCalledName(r *Repo, rep *Report) {
 			return false
 		}
 		if ix, ok := as.Lhs[0].(*ast.IndexExpr); ok {
-			if sel, ok := ix.X.(*ast.SelectorExpr); ok && sel.Sel.Name == "funcNames" {
+			if isFuncNames(ix.X) {
 				return true
 			}
 		}
